@@ -22,7 +22,7 @@
      decode_depth g p      depth from LENGTH p;  decode_shape g prefixes
      decode_anc/dec_last/dec_hc   flags from the characters of a prefix *)
 From Coq Require Import List ZArith Bool Arith.
-From NT Require Import Sx Rose Format FormatProofs FormatDecode CaseC16.
+From NT Require Import Sx Rose Nav NavProofs Format FormatProofs FormatDecode FormatNav CaseC16.
 From NTGen Require Import Generated.
 Import ListNotations.
 
@@ -37,6 +37,17 @@ Theorem C16_contexts_are_preorder_with_positional_flags : forall f : forest,
   map n_node (ctxs_l [] f) = pre_f f /\ Forall (nctx_ok f) (ctxs_l [] f).
 Proof. exact (fun f => conj (ctxs_nodes_l f []) (ctxs_ok f)). Qed.
 Print Assumptions C16_contexts_are_preorder_with_positional_flags.
+
+(* ... and these positional flags are what the Python loop computes with
+   identity tests: when node identities are unique (C01), every printer
+   context is a structural context of the relationship-query model (C10) of
+   the same node, the ancestors' flags are [q_is_last] of each ancestor in
+   its own context in get_parent_list() order, own flag = [q_is_last],
+   has-children = [q_has_children], number of flags = depth - 1. *)
+Theorem C16_flags_are_the_identity_tests_of_the_code : forall f : forest,
+  NoDup (ids f) -> Forall (nav_agrees f) (ctxs_l [] f).
+Proof. exact ctxs_nav_agree. Qed.
+Print Assumptions C16_flags_are_the_identity_tests_of_the_code.
 
 (* Node._get_prefix (the Python loop with its [depth]/[lstrip] counters) in
    closed form: nothing for a node above the cut, otherwise the segments of
@@ -346,5 +357,19 @@ Proof. repeat split; vm_compute; reflexivity. Qed.
 
 (* the relational reading of the flags is satisfiable by a deep context *)
 Example C16_ex_context :
-  In ([false; false; true], true, Ex.nd 6 []) (ctxs_l [] Ex.f).
-Proof. vm_compute. tauto. Qed.
+  In ([false; false; true], true, Ex.nd 6 []) (ctxs_l [] Ex.f)
+  /\ NoDup (ids Ex.f)
+  /\ map (fun c => (n_anc c, n_last c)) (ctxs_l [] Ex.f)
+     = map (fun c => match locate_f (rid (n_node c)) Ex.f with
+                     | Some nc => (map (fun a => match locate_f (rid a) Ex.f with
+                                                 | Some ca => q_is_last ca | None => false end)
+                                       (q_parent_list nc false false),
+                                   q_is_last nc)
+                     | None => ([], false)
+                     end) (ctxs_l [] Ex.f).
+Proof.
+  refine (conj _ (conj _ _)).
+  - vm_compute. tauto.
+  - vm_compute. repeat constructor; cbn; intuition discriminate.
+  - vm_compute. reflexivity.
+Qed.
